@@ -104,6 +104,19 @@ def cli_case(case):
             e2e.run(first, ["--codemod-include", ",".join(cms)])
             e2e.write_project(proj, {"m.py": rng.choice(seeds[cms[0]]), "n.py": rng.choice(seeds[cms[1]])})
             args = ["--codemod-include", ",".join(cms)]; ids = cms
+        elif kind == "same-output-twice":
+            # the report path is reused: a long report (the run that fixes the project), then a short one (nothing left to do)
+            cms = ["pixee:python/numpy-nan-equality", "pixee:python/fix-assert-tuple", "pixee:python/use-walrus-if"]
+            e2e.write_project(proj, {f"m{i}.py": rng.choice(seeds[cms[i % 3]]) for i in range(6)})
+            out = root / "report.codetf"
+            lens = []
+            for _ in range(2):
+                before = e2e.read_tree(proj)
+                rc = impl.run_cli([str(proj), "--output", str(out), "--codemod-include", ",".join(cms)])
+                lens.append(out.stat().st_size if out.exists() else -1)
+            rep = impl.read_report(out)
+            errs = validate(rep, proj, cms, e2e.read_tree(proj), before) if rep is not None else [f"the report written over an earlier, longer one is not valid JSON (sizes {lens})"]
+            return {"rc": list(rc), "errs": errs[:5], "nontrivial": lens[0] > lens[1] > 0, "args": ["--output <same path twice>"]}
         before = e2e.read_tree(proj)
         r = e2e.run(proj, args)
         after = e2e.read_tree(proj)
@@ -128,6 +141,7 @@ def search(ctx):
     for m in ["requirements.txt", "pyproject.toml", "setup.cfg"]:
         cases.append({"kind": "mixed", "seed": rng.randint(0, 10**9), "pool": ["pixee:python/use-defusedxml"], "manifest": m, "manifest_dir": "backend/"})
     cases += [{"kind": "two-runs", "seed": rng.randint(0, 10**9)} for _ in range(ctx.pick(2, 8))]
+    cases += [{"kind": "same-output-twice", "seed": rng.randint(0, 10**9)} for _ in range(ctx.pick(1, 3))]
     for c, r in zip(cases, impl.pool_map(cli_case, cases)):
         if r[0] != "ok":
             ctx.broke("c15 cli harness", r[1]); continue
